@@ -6,7 +6,7 @@ namespace Driver.C12
 
 /-! Line protocol of C12 (model side / monitor side).
 
-`mon <mode64> <n> {kind gp size read write lo width follower runLen rmChecked memAlt}*n <dbFlagsR> <dbFlagsW> <featChecked> <dbExt>
+`mon <mode64> <n> {kind gp size read write lo width follower runLen rmChecked memAlt}*n <dbFlagsR> <dbFlagsW> <featChecked> <dbExt> <featImplies a,b,a,b…>
      <m> {flags physId rmSize clc rmask wmask emask}*m <implFlagsR> <implFlagsW> <implFeat>`      → `good` | `BAD <clause>`
 (lists are comma separated, `-` = empty; masks and flags in hex)
 
@@ -42,12 +42,16 @@ def parseRow (ws : List String) : Option Row := do
   | m64 :: n :: rest =>
     let (dbOps, rest) ← parseDbOps (← n.toNat?) rest
     match rest with
-    | fr :: fw :: fc :: ext :: m :: rest =>
+    | fr :: fw :: fc :: ext :: imp :: m :: rest =>
+      let impl ← natList? imp
+      let rec pairs : List Nat → List (Nat × Nat)
+        | a :: b :: t => (a, b) :: pairs t
+        | _ => []
       let (implOps, rest) ← parseImplOps (← m.toNat?) rest
       match rest with
       | [ir, iw, feat] =>
         some { mode64 := ← bool? m64, dbOps := dbOps, dbFlagsR := ← parseHex? fr, dbFlagsW := ← parseHex? fw,
-               featChecked := ← bool? fc, dbExt := ← natList? ext, implOps := implOps, implFlagsR := ← parseHex? ir,
+               featChecked := ← bool? fc, dbExt := ← natList? ext, featImplies := pairs impl, implOps := implOps, implFlagsR := ← parseHex? ir,
                implFlagsW := ← parseHex? iw, implFeat := ← natList? feat }
       | _ => none
     | _ => none
